@@ -989,3 +989,80 @@ class Z3Conv:
                 raise UnsupportedTerm(op)
             memo[t.id] = v
         return memo[root.id]
+
+
+def evalmp(roots, env, dps=60):
+    """high-precision evaluation (mpmath) used to tell an ill-conditioned float evaluation from an engine bug"""
+    import mpmath
+
+    mpmath.mp.dps = dps
+    mpf = mpmath.mpf
+    memo = {}
+    for t in reachable([r for r in roots if isinstance(r, Term)]):
+        op = t.op
+        if op in ("var", "avar"):
+            v = env[t.args[0]]
+            memo[t.id] = v if isinstance(v, bool) else (mpf(v) if t.sort == R else int(v))
+            continue
+        a = []
+        for x in t.args:
+            if isinstance(x, Term):
+                a.append(memo[x.id])
+            elif isinstance(x, Fraction):
+                a.append(mpf(x.numerator) / mpf(x.denominator))
+            else:
+                a.append(x)
+        if op == "add":
+            v = a[0] + a[1]
+        elif op == "mul":
+            v = a[0] * a[1]
+        elif op == "neg":
+            v = -a[0]
+        elif op == "div":
+            v = a[0] / a[1] if a[1] != 0 else mpmath.nan
+        elif op == "sqrt":
+            v = mpmath.sqrt(a[0]) if a[0] >= 0 else mpmath.nan
+        elif op == "abs":
+            v = abs(a[0])
+        elif op == "toreal":
+            v = mpf(a[0])
+        elif op == "trunc":
+            v = int(a[0])
+        elif op == "floordiv":
+            v = a[0] // a[1] if a[1] != 0 else 0
+        elif op == "pymod":
+            v = a[0] % a[1] if a[1] != 0 else 0
+        elif op == "lt":
+            v = a[0] < a[1]
+        elif op == "le":
+            v = a[0] <= a[1]
+        elif op in ("eq", "iff"):
+            v = a[0] == a[1]
+        elif op == "not":
+            v = not a[0]
+        elif op == "and":
+            v = a[0] and a[1]
+        elif op == "or":
+            v = a[0] or a[1]
+        elif op == "ite":
+            v = a[1] if a[0] else a[2]
+        elif op == "uf":
+            name = t.args[0]
+            if name == "log":
+                v = mpmath.log(a[1]) if a[1] > 0 else mpmath.nan
+            elif name == "exp":
+                v = mpmath.exp(a[1])
+            else:
+                v = mpmath.nan
+        else:
+            raise UnsupportedTerm(op)
+        memo[t.id] = v
+    out = []
+    for r in roots:
+        if isinstance(r, Term):
+            out.append(memo[r.id])
+        elif isinstance(r, Fraction):
+            out.append(mpf(r.numerator) / mpf(r.denominator))
+        else:
+            out.append(r)
+    return out
